@@ -17,13 +17,31 @@ pub struct Case {
     pub size_sel: u8,
     pub types: Vec<RType>,
     pub big_endian: bool,
+    /// a generated filter configuration, converted through the owned or the borrowed From impl
+    #[serde(default)]
+    pub gen_filter: Option<(super::c04::Filter, bool)>,
 }
 
 pub fn check(c: &Case) -> CheckResult {
     oracle::install_logger();
     oracle::format_logs(c.format_logs && c.buf.len() < 4096);
     let types: Vec<_> = c.types.iter().map(type_to_crate).collect();
-    let r = oracle::c03(&c.buf, c.filter, c.size_sel, &types, c.big_endian);
+    let r = oracle::c03(&c.buf, c.filter, c.size_sel, &types, c.big_endian).and_then(|pass| {
+        // the message parser under a generated filter configuration (both conversion paths), both storage modes
+        if let Some((f, borrowed)) = &c.gen_filter {
+            let cfg = f.to_crate();
+            let pf = if *borrowed { dlt_core::filtering::ProcessedDltFilterConfig::from(&cfg) } else { dlt_core::filtering::ProcessedDltFilterConfig::from(cfg) };
+            for storage in [false, true] {
+                let what = format!("dlt_message(storage={}, generated filter {:?}, borrowed conversion {})", storage, f, borrowed);
+                let res = crate::util::guard(|| dlt_core::parse::dlt_message(&c.buf, Some(&pf), storage).map(|(_, pm)| pm))
+                    .map_err(|p| Violation::from_panic(&format!("{} on {}", what, crate::util::hex_short(&c.buf)), &p))?;
+                if let Ok(dlt_core::parse::ParsedMessage::Item(m)) = &res {
+                    oracle::use_message(m, &what)?;
+                }
+            }
+        }
+        Ok(pass)
+    });
     oracle::format_logs(false);
     r
 }
@@ -33,14 +51,16 @@ pub fn signal_types() -> BoxedStrategy<Vec<RType>> {
 }
 
 pub fn strategy() -> impl Strategy<Value = Case> {
-    (any::<bool>(), 0u8..8, prop::bool::weighted(0.3), any::<u8>(), signal_types(), any::<bool>()).prop_flat_map(|(storage, filter, format_logs, size_sel, types, big_endian)| {
-        gb::hostile(storage).prop_map(move |buf| Case { buf, filter, format_logs, size_sel, types: types.clone(), big_endian })
-    })
+    (any::<bool>(), 0u8..8, prop::bool::weighted(0.3), any::<u8>(), signal_types(), any::<bool>(), prop::option::weighted(0.5, (super::c04::filter(), any::<bool>()))).prop_flat_map(
+        |(storage, filter, format_logs, size_sel, types, big_endian, gen_filter)| {
+            gb::hostile(storage).prop_map(move |buf| Case { buf, filter, format_logs, size_sel, types: types.clone(), big_endian, gen_filter: gen_filter.clone() })
+        },
+    )
 }
 
 pub fn run(run: &Run) {
     run.rule(
-        "cases = hostile byte strings (canonical+suffix, wire-level dialect, mutated, arbitrary, > 64 KiB) x filter configuration x logger formatting \
+        "cases = hostile byte strings (canonical+suffix, wire-level dialect, mutated, arbitrary, > 64 KiB) x filter configuration (7 fixed ones, and in half of the cases a generated one converted through the owned or the borrowed From impl) x logger formatting \
          on/off x string size x signal-type list; every slice entry point is called under catch_unwind with overflow checks on (dlt_message in all \
          four storage/filter modes, dlt_consume_msg, skip_storage_header, forward_to_next_storage_header, dlt_zero_terminated_string, \
          construct_arguments) and every returned message is re-serialised, measured and validated; non-trivial = at least one entry point got past \
